@@ -21,6 +21,7 @@ CONSTANTS Members,      \* configured universe (Membership of every Member objec
           E,            \* expectedMemberCount
           AdvSet,       \* adversary alphabet: records [from, to, t, tag, view]
           MaxInject,
+          Distinct,     \* TRUE: every adversarial message at most once and the set of injected messages is tracked
           Deadlines     \* whether ctx may expire
 
 Honest == Members \ Byz
@@ -32,11 +33,12 @@ VARIABLES ph,    \* [Honest -> {"idle","probing","querying","done","failed"}]
           al,    \* [Honest -> Nat]              acknowledgementsLeft
           fin,   \* [Honest -> view]             the list queried / handed to the continuation
           links, \* [<<from, to>> -> Seq(msg)]
-          inj,
+          inj, injected,
           hist
 
-vars == <<ph, mv, rs, rq, al, fin, links, inj, hist>>
-view == <<ph, mv, rs, rq, al, fin, links, inj>>
+vars == <<ph, mv, rs, rq, al, fin, links, inj, injected, hist>>
+view == <<ph, mv, rs, rq, al, fin, links, inj, injected>>
+setview == injected
 
 Msg(t, tag, v) == [t |-> t, tag |-> tag, view |-> v]
 
@@ -55,27 +57,26 @@ Init == /\ ph = [m \in Honest |-> "idle"]
         /\ al = [m \in Honest |-> 0]
         /\ fin = [m \in Honest |-> <<>>]
         /\ links = [pr \in Pairs |-> <<>>]
-        /\ inj = 0 /\ hist = <<>>
+        /\ inj = 0 /\ injected = {} /\ hist = <<>>
 
 Start(m) ==
   /\ m \in Starters /\ ph[m] = "idle"
   /\ ph' = [ph EXCEPT ![m] = "probing"]
   /\ hist' = Append(hist, [e |-> "start", m |-> m])
-  /\ UNCHANGED <<mv, rs, rq, al, fin, links, inj>>
+  /\ UNCHANGED <<mv, rs, rq, al, fin, links, inj, injected>>
 
 \* messages of honest m to every other honest configured member (Byzantine inboxes are not modelled)
 BcastTo(m, msg) == [pr \in Pairs |-> IF pr[1] = m /\ pr[2] \in Honest \ {m} THEN Append(links[pr], msg) ELSE links[pr]]
 
 HasPendingM(m, q) == \E i \in DOMAIN links[<<m, q>>] : links[<<m, q>>][i].t = "M"
 
-\* the ticker fires: announce the current view (at most one announcement queued per link keeps the model finite)
+\* the ticker fires: announce the current view (the next tick only after the previous announcements were delivered: keeps the model finite)
 Tick(m) ==
   /\ ph[m] = "probing"
-  /\ \E q \in Honest \ {m} : ~HasPendingM(m, q)
-  /\ links' = [pr \in Pairs |-> IF pr[1] = m /\ pr[2] \in Honest \ {m} /\ ~HasPendingM(m, pr[2])
-                                  THEN Append(links[pr], Msg("M", m, MyView(m))) ELSE links[pr]]
+  /\ \A q \in Honest \ {m} : ~HasPendingM(m, q)
+  /\ links' = BcastTo(m, Msg("M", m, MyView(m)))
   /\ hist' = Append(hist, [e |-> "tick", m |-> m])
-  /\ UNCHANGED <<ph, mv, rs, rq, al, fin, inj>>
+  /\ UNCHANGED <<ph, mv, rs, rq, al, fin, inj, injected>>
 
 \* intersectedView: every announced view and the own view are identical
 Consistent(m) == Peers(m) # {} /\ \A p \in Peers(m) : ViewOf(m, p) = MyView(m)
@@ -91,7 +92,7 @@ Check(m) ==
             /\ ph' = [ph EXCEPT ![m] = IF E - 1 = 0 THEN "done" ELSE "querying"]
             /\ links' = BcastTo(m, Msg("Q", m, MyView(m)))
   /\ hist' = Append(hist, [e |-> "check", m |-> m])
-  /\ UNCHANGED <<mv, rs, rq, inj>>
+  /\ UNCHANGED <<mv, rs, rq, inj, injected>>
 
 \* HandleMessage(from = p, msg) at honest m
 Handle(m, p, msg, st) ==
@@ -119,7 +120,7 @@ Recv(p, m) ==
   /\ links[<<p, m>>] # <<>>
   /\ ApplyHandle(m, p, Head(links[<<p, m>>]), [links EXCEPT ![<<p, m>>] = Tail(@)])
   /\ hist' = Append(hist, [e |-> "recv", from |-> p, to |-> m])
-  /\ UNCHANGED <<ph, al, fin, inj>>
+  /\ UNCHANGED <<ph, al, fin, inj, injected>>
 
 Consume(m) ==
   /\ ph[m] = "querying" /\ rq[m] # <<>>
@@ -129,16 +130,18 @@ Consume(m) ==
             /\ ph' = [ph EXCEPT ![m] = IF al[m] - 1 = 0 THEN "done" ELSE "querying"]
        ELSE UNCHANGED <<al, ph>>
   /\ hist' = Append(hist, [e |-> "consume", m |-> m])
-  /\ UNCHANGED <<mv, rs, fin, links, inj>>
+  /\ UNCHANGED <<mv, rs, fin, links, inj, injected>>
 
 Deadline(m) ==
   /\ Deadlines /\ ph[m] \in {"probing", "querying"}
   /\ ph' = [ph EXCEPT ![m] = "failed"]
   /\ hist' = Append(hist, [e |-> "deadline", m |-> m])
-  /\ UNCHANGED <<mv, rs, rq, al, fin, links, inj>>
+  /\ UNCHANGED <<mv, rs, rq, al, fin, links, inj, injected>>
 
 Inject(a) ==
   /\ inj < MaxInject /\ inj' = inj + 1
+  /\ ~Distinct \/ a \notin injected
+  /\ injected' = IF Distinct THEN injected \cup {a} ELSE injected
   /\ ApplyHandle(a.to, a.from, Msg(a.t, a.tag, a.view), links)
   /\ hist' = Append(hist, [e |-> "inject", a |-> a])
   /\ UNCHANGED <<ph, al, fin>>
